@@ -556,7 +556,7 @@ structure Resp where
   body : Option J
 
 /-- `create_response_unstamped(req, value, Json)` / `create_error_response_like(req, err.code(), _)` -/
-def respond (code : RErr → Nat) : Res → Resp
+def regRespond (code : RErr → Nat) : Res → Resp
   | .ok v => ⟨0, some v⟩
   | .error e => ⟨code e, none⟩
 
@@ -572,7 +572,7 @@ def Reg.handleAt (d : Decoders) (code : RErr → Nat) (notFound : Nat) (rc : Boo
     | .error e => (reg, ⟨code e, none⟩)
     | .ok b =>
       let (reg', r) := reg.dispatch rc ptr b
-      (reg', respond code r)
+      (reg', regRespond code r)
 
 /-- `Router::get(path)` (registry mounts only; `none` = the router has no handler for the path), then
 that mount's handler. -/
